@@ -38,6 +38,20 @@ Definition vrf_add (t : nat) mpks members m (st : seq vrf_ev) (ev : vrf_ev) :=
 Definition vrf_run (t : nat) mpks members m (st : seq vrf_ev) (evs : seq vrf_ev) :=
   va_run (fun ev : vrf_ev => ev.1) vrf_same (vrf_verify mpks members m) t st evs.
 
+(* Histories with round restarts (restartRound: Round.Restart + IncrementTimeoutCount): a restart
+   empties the set of admitted shares (Round.initialize recreates the shares map) and the round
+   continues under a new message (the timeout count is part of it). *)
+Inductive vrf_hev : Type := VShare (ev : vrf_ev) | VRestart (m' : M).
+
+Definition vrf_hstep (t : nat) mpks members (s : M * seq vrf_ev) (h : vrf_hev) : M * seq vrf_ev :=
+  match h with
+  | VShare ev => (s.1, (vrf_add t mpks members s.1 s.2 ev).1)
+  | VRestart m' => (m', [::])
+  end.
+
+Definition vrf_hrun (t : nat) mpks members (s : M * seq vrf_ev) (hs : seq vrf_hev) :=
+  foldl (vrf_hstep t mpks members) s hs.
+
 (* ThresholdNumBLSSigReceived + computeRoundRandomSeed: with fewer than t admitted shares there
    is no seed; otherwise the group signature is recovered from all admitted shares (a failing
    recovery leaves the zero signature, the code only logs the error) and hashed *)
